@@ -392,8 +392,11 @@ func (d *Driver) doAction(a *Action) {
 		d.notify(o, a.Kind)
 		return
 	case ARestart, AStart:
-		if in.inStopCall > 0 {
-			// Start racing a stop call of the same instance is API misuse the properties do not cover
+		if in.inStopCall > 0 && !d.free {
+			// Start while a stop call of the same instance has not returned: the properties speak
+			// about what holds "after Stop returns ... until a later Start"; a Start that overlaps
+			// the stop call makes that window meaningless, so the deterministic families do not
+			// issue it (the free-run C20 plans do: Start answers ErrStopInProgress or starts a new run)
 			d.probe("start_during_stop_skipped")
 			d.mu.Unlock()
 			return
